@@ -75,6 +75,7 @@ class Contract:
     self.opaque_pure = True            # opaque callbacks do not touch gin state
     self.opaque_havoc = None           # or: set of fields they may change
     self.opaque_may_raise = True
+    self.dispatch = None               # callable(args) -> another contract (by argument kind)
     self.custom = None                 # callable(ex, args, node): replaces the whole call
     self.abstract_stmts = []           # [(predicate(stmt), reason)]: statements havoced
     self.opaque_model = None           # callable(ex, fn, args, kwargs, node) -> wrapper|None
